@@ -168,7 +168,7 @@ Fixpoint next (fuel : nat) (s : st) (i : it) {struct fuel} : st * outcome :=
         end
     | Enumerate n j =>
         match next fu s j with
-        | (s1, Yield v j') => (s1, Yield (VList true [VInt n; v]) (Enumerate (n + 1) j'))
+        | (s1, Yield v j') => (s1, Yield (VList false [VInt n; v]) (Enumerate (n + 1) j'))
         | r => r
         end
     | Distinct f seen j =>
@@ -550,7 +550,7 @@ Definition stage_list (sg : stage) (l : list val) : option (list val) :=
   | SConcat ls => Some (l ++ concat ls)
   | SDistinct k => if forallb (fun x => hashable (match k with Some g => apply g x | None => x end)) l
                    then Some (distinct_l val_eqb (fun x => match k with Some g => apply g x | None => x end) l) else None
-  | SEnumerate n => Some (map (fun p => VList true [VInt (fst p); snd p])
+  | SEnumerate n => Some (map (fun p => VList false [VInt (fst p); snd p])
                               (enumerate_l (match n with Some z => z | None => 0%Z end) l))
   | SInsertMany pos vs => Some (insert_many_l l pos vs)
   | SDelete pos cnt => Some (delete_l l pos (match cnt with Some c => c | None => 1%Z end))
@@ -629,7 +629,7 @@ Definition apply_stage (fuel : nat) (s : st) (sg : stage) (r : rv) : rr :=
       with_list fuel s r (fun s1 l =>
         let s2 := tick_n (length l * (match v with Some _ => 2 | None => 1 end)) s1 in
         if forallb (fun x => hashable (apply k x)) l then
-          ok_it s2 (OfList (map (fun g => pair_val (fst g) (VList true (snd g)))
+          ok_it s2 (OfList (map (fun g => pair_val (fst g) (VList false (snd g)))
                                 (group_by_l val_eqb (apply k)
                                             (fun x => match v with Some g => apply g x | None => x end) l)))
         else (s2, Err EType))
